@@ -43,6 +43,13 @@ def followup(stage, lines, model, checked, release, tier, rng):
                 r = K.sign_raw(s, msg, sk, 0)
                 _st["trip"].append(dict(set=s, msg=msg, pk=pk, req=r))
                 L.append(r)
+            if S.P(s).mldsa:
+                # API level: context / mode / hash alterations, incl. moving the boundary between context and message
+                ctx, msg = b"payments/v1:", b"pay 10 to bob"
+                for ph in (None, "sha256"):
+                    a = K.api_sign(s, sk, msg, ctx) if ph is None else K.api_prehash_sign(s, sk, msg, ctx, 0, ph)
+                    _st.setdefault("api", []).append(dict(set=s, ctx=ctx, msg=msg, ph=ph, pk=pk, req=a))
+                    L.append(a)
         return L
     if stage == 2:
         idx = {l: i for i, l in enumerate(lines)}
@@ -76,6 +83,18 @@ def followup(stage, lines, model, checked, release, tier, rng):
                 e["neg"].append(K.verify_raw(s, sig, bytes(m2), pk))
             e["pos"] = K.verify_raw(s, sig, msg, pk)
             L.extend(e["neg"]); L.append(e["pos"])
+        for e in _st.get("api", []):
+            sig = K.sig_of(checked[idx[e["req"]]])
+            if sig is None:
+                continue
+            s, ctx, msg, ph, pk = e["set"], e["ctx"], e["msg"], e["ph"], e["pk"]
+            V = lambda m, c, h: K.api_verify(s, pk, m, sig, c) if h is None else K.api_prehash_verify(s, pk, m, sig, c, h)
+            e["pos"] = V(msg, ctx, ph)
+            alts = [(ctx[-1:] + msg, ctx[:-1], ph), (msg[1:], ctx + msg[:1], ph), (ctx + msg, None, ph), (ctx + msg, b"", ph),
+                    (msg, None, ph), (msg, b"", ph), (msg, ctx + b"\x00", ph), (msg, ctx[:-1], ph), (msg + b"\x00", ctx, ph),
+                    (msg, ctx, "sha512" if ph == "sha256" else "sha256"), (msg, ctx, None if ph else "sha512")]
+            e["neg"] = [V(m, c, h) for (m, c, h) in alts]
+            L.extend(e["neg"]); L.append(e["pos"])
         return L
     return []
 
@@ -101,7 +120,7 @@ def violated_all(lines, model, checked, release):
                 a = ans[i]
                 if not a.startswith("ok ") or " accepted=0 " not in a or " panics=0 " not in a:
                     out.append((i, "%s build: %s on a valid %s signature: %s" % (prof, l.split()[1], l.split()[2], a[:160])))
-    for e in _st["trip"]:
+    for e in _st["trip"] + _st.get("api", []):
         for v in e.get("neg", []):
             if v in idx:
                 for prof, ans in (("checked", checked), ("wrapping", release)):
